@@ -1479,10 +1479,62 @@ pub fn part_evalid(out: &mut Out, o: &Opts) {
     }
 }
 
+/// text handling at sizes and with characters that short inputs do not contain
+pub fn part_evallong(out: &mut Out, o: &Opts) {
+    let core = "exists b # (a & b) | [a, c, d] >= 2";
+    let mut texts: Vec<String> = vec![];
+    for n in [4095usize, 4096, 4097, 8192, 65535, 65536, 65537, 70000] {
+        texts.push(format!("{}{core}", " ".repeat(n)));
+        texts.push(format!("{core}{}", "\n".repeat(n)));
+        texts.push(format!("a &{}b", " ".repeat(n)));
+        texts.push(format!("\"{}\" {core}", "x".repeat(n)));
+        texts.push(format!("a \"{}\" & b", "c d ".repeat(n / 4)));
+    }
+    for n in [255usize, 256, 257, 1023, 1024, 1025, 4096, 5000] {
+        let id = "v".repeat(n);
+        texts.push(format!("{id} & -{id}x | {id}"));
+        texts.push(format!("exists {id} # {id} & a"));
+    }
+    // line ends, byte order mark, tabs, form feed, no trailing newline / several
+    for t in [
+        "a &\r\nb", "a\r\n&\r\nb\r\n", "\u{feff}a & b", "a & b\u{feff}", "a\t&\tb", "a\u{c}& b", "a & b\n", "a & b\n\n\n", "\na & b", "a &\rb",
+        "a\u{a0}& b", "a\u{2028}& b", "a\u{200b}b", "a\u{301} & b", "e\u{301}x & ex", "a & b\0", "\0a & b", "a\0b",
+        "\"open comment a & b", "a & b \"trailing", "a \"x\" \"y\" & b", "a \"\" & b", "\"\"", "\"\r\n\" a",
+    ] {
+        texts.push(t.to_string());
+    }
+    // numbers with leading zeros / signs / long digit strings in counting position
+    for n in ["0", "00", "01", "007", "+1", "-1", "1_000", "18446744073709551615", "18446744073709551616", "000000000000000000000000000001", "1e3", "0x10", "١"] {
+        for op in ["=", "<=", ">=", "<", ">"] {
+            texts.push(format!("[a, b, c] {op} {n}"));
+        }
+    }
+    // nesting depth: brackets, negations, binders
+    let depths: &[usize] = if o.thorough { &[10, 100, 200, 400] } else { &[10, 100, 200] };
+    for &d in depths {
+        texts.push(format!("{}a{}", "(".repeat(d), ")".repeat(d)));
+        texts.push(format!("{}a", "-".repeat(d)));
+        texts.push(format!("{}a", "not ".repeat(d)));
+        texts.push(format!("{}a & b", "exists b # ".repeat(d)));
+        texts.push(format!("{}a{}", "[".repeat(d.min(50)), "] >= 1".repeat(d.min(50))));
+        let mut ite = String::new();
+        for _ in 0..d.min(100) {
+            ite.push_str("if a then b else ");
+        }
+        ite.push('c');
+        texts.push(ite);
+    }
+    for t in texts {
+        emit_tok(out, &t, &[]);
+        emit_eval(out, &t, &[]);
+    }
+}
+
 pub fn main(out: &mut Out, o: &Opts) {
     for p in o.parts.clone() {
         match p.as_str() {
             "evalq" => part_evalq(out, o),
+            "evallong" => part_evallong(out, o),
             "sym" => part_sym(out, o),
             "evalx" => part_evalx(out, o),
             "evalid" => part_evalid(out, o),
